@@ -200,4 +200,33 @@ theorem retrLoop_dropSrv_eq (k : Nat) : ∀ (fuel : Nat) (rem act : List MShare)
         exact ih _ _ (List.Nodup.sublist (List.Sublist.map _ List.filter_sublist) hs)
           (List.Nodup.sublist (List.Sublist.map _ List.filter_sublist) hn)
 
+theorem pairLe_trans (a b c : Nat × Nat) (h1 : pairLe a b = true) (h2 : pairLe b c = true) : pairLe a c = true := by
+  simp only [pairLe, Bool.or_eq_true, decide_eq_true_eq, Bool.and_eq_true, beq_iff_eq] at *
+  omega
+
+theorem pairLe_total (a b : Nat × Nat) : (pairLe a b || pairLe b a) = true := by
+  simp only [pairLe, Bool.or_eq_true, decide_eq_true_eq, Bool.and_eq_true, beq_iff_eq]
+  omega
+
+theorem pairLe_antisymm (a b : Nat × Nat) (h1 : pairLe a b = true) (h2 : pairLe b a = true) : a = b := by
+  simp only [pairLe, Bool.or_eq_true, decide_eq_true_eq, Bool.and_eq_true, beq_iff_eq] at *
+  exact Prod.ext (by omega) (by omega)
+
+/-- sorting forgets the insertion order -/
+theorem mergeSort_eq_of_perm (d1 d2 : Offsets) (h : d1.Perm d2) : d1.mergeSort pairLe = d2.mergeSort pairLe := by
+  apply List.Perm.eq_of_pairwise (le := fun a b => pairLe a b = true)
+  · intro a b _ _ h1 h2; exact pairLe_antisymm a b h1 h2
+  · exact List.pairwise_mergeSort pairLe_trans pairLe_total d1
+  · exact List.pairwise_mergeSort pairLe_trans pairLe_total d2
+  · exact ((List.mergeSort_perm d1 pairLe).trans h).trans (List.mergeSort_perm d2 pairLe).symm
+
+/-- a sorted permutation of the dict is what sorting gives -/
+theorem mergeSort_eq_of_sorted_perm (d t : Offsets) (hp : d.Perm t) (hs : t.Pairwise (fun a b => pairLe a b = true)) :
+    d.mergeSort pairLe = t := by
+  apply List.Perm.eq_of_pairwise (le := fun a b => pairLe a b = true)
+  · intro a b _ _ h1 h2; exact pairLe_antisymm a b h1 h2
+  · exact List.pairwise_mergeSort pairLe_trans pairLe_total d
+  · exact hs
+  · exact (List.mergeSort_perm d pairLe).trans hp
+
 end Tahoe.RetrSel
